@@ -25,7 +25,16 @@ PROP = {
             "component": "wsmsg",
             "quick": {"gen": [(6000, 5)], "enum": [(40,)]},
             "thorough": {"gen": [(60000, 6)], "enum": [(300,)]},
+        }, {
+            # "delivered exactly once, in order" across a reconnect: frames that arrive in the same segment as the 101 response of a
+            # second handshake on the same Stream (after a session that delivered frames) are the first frames of the new session
+            # (component of C18; only the clause about the bytes after the blank line is attributed to C06)
+            "component": "wshandshake",
+            "quick": {"gen": [(150, 4)]},
+            "thorough": {"gen": [(1200, 5)]},
+            "timeout": 1500,
         }],
+        "keys": ["wsmsg.*", "wshandshake.bytes-after-blank-line"],
         "rule": "scripts = a session of a conforming server at message level (0-6 text/binary messages; payload sizes 0, 1, 125, 126, 127, "
                 "max-1, max, random, rarely 65535/65536/65537 with max in {65535, 65536, 70000, 524288}; max otherwise from "
                 "{2,16,125,126,127,300,1000,4096}), each message cut into 1-6 fragments at random and boundary-biased points (empty "
